@@ -737,6 +737,8 @@ def predict_frames(sc, out_lines, freq, K):
                         cur["ok"] = True
                     expect.append((len(model) - 1, d, "%s %s" % (t, d.get("api"))))
             else:  # C
+                if prev is not None and "ntu" in prev:
+                    model.append((109, [int(prev["ntu"])], ("ntu",)))     # what the match finder left
                 size = int(d["size"]); bsmax = max(1, int(d["bsmax"]))
                 blocks = [bsmax] * (size // bsmax) + ([size % bsmax] if size % bsmax else [])
                 model.append((103, [int(d["off"])] + blocks, ("rcontinue", len(blocks) > 1)))
